@@ -62,7 +62,6 @@ def fromStrRadix (s : List Char) (radix : Nat) : Option Int :=
                 if inI64 r then some r else none
     | none => none
 
-def signed (w : Nat) (n : Nat) : Int := if n < 256 ^ w / 2 then (n : Int) else (n : Int) - (256 : Int) ^ w
 
 /-- engine's width_bucket on the doubles of its integer operands -/
 def widthBucketF (v l h count : Int) : Int :=
@@ -81,26 +80,6 @@ def unitE (u : List Char) : Option DUnit :=
   else if l = "year".toList ∨ l = "years".toList then some .year else none
 def monthsAdd (z v : Int) : EOut :=
   if v ≥ 0 then dateOrNull (addMonths z (asU32 v)) else dateOrNull (addMonths z (-(asU32 (-v) : Int)))
-
-def luhnE (s : List Char) : Bool :=
-  let ds := (s.filter isDigitC).map (fun c => c.toNat - 48)
-  if ds.isEmpty then false else luhnSum ds.reverse false % 10 == 0
-
-def urlEncE (s : List Char) : List Char :=
-  (IQE.Utf8.encode s).flatMap (fun b => if isAlnum b.toNat then [Char.ofNat b.toNat] else ['%', hexUp (b.toNat / 16), hexUp (b.toNat % 16)])
-/-- `percent_decode`: a `%` not followed by two hex digits is kept literally -/
-def pctDecode : List UInt8 → Nat → List UInt8
-  | [], _ => []
-  | _ :: rest, skip + 1 => pctDecode rest skip
-  | b :: rest, 0 =>
-    if b.toNat = 37 then
-      match rest with
-      | h :: l :: _ =>
-        match hexValU (Char.ofNat h.toNat), hexValU (Char.ofNat l.toNat) with
-        | some hv, some lv => if h.toNat < 128 && l.toNat < 128 then UInt8.ofNat (hv * 16 + lv) :: pctDecode rest 2 else b :: pctDecode rest 0
-        | _, _ => b :: pctDecode rest 0
-      | _ => b :: pctDecode rest 0
-    else b :: pctDecode rest 0
 
 def hammingE (a b : List Char) : EOut :=
   if byteLen a ≠ byteLen b then nullV else intV (hammingGo a b)
@@ -127,11 +106,6 @@ def devCall (c : Ctx) (f : String) (args : List V) : Option (String × EOut) :=
         else some ("C36-F5", strV ((sv.drop (asUsize start - 1)).take (asUsize len)))
       | none => none
     | _, _, _ => none
-  -- F6: input documented to raise yields NULL
-  | "from_hex", [.str s] => some ("C36-F6", match fromHex s with | some b => .val (.bytes b) | none => nullV)
-  | "from_base64", [.str s] => (match base64.decode s with | some b => some ("C36-F6", .val (.bytes b)) | none => some ("C36-F6", nullV))
-  | "from_base64url", [.str s] => (match base64url.decode s with | some b => some ("C36-F6", .val (.bytes b)) | none => some ("C36-F6", nullV))
-  | "from_base32", [.str s] => (match base32.decode s with | some b => some ("C36-F6", .val (.bytes b)) | none => some ("C36-F6", nullV))
   -- F7: width_bucket in doubles, bucket count from row 0
   | "width_bucket", [x, lo, hi, _] =>
     (match a0.getD 3 .null |> intSlot with
@@ -163,11 +137,7 @@ def devCall (c : Ctx) (f : String) (args : List V) : Option (String × EOut) :=
        some ("C36-F9", if k > 0 && k ≤ parts.length then strV (parts.getD (k - 1) []) else strV [])
      | _, _, some _ => if s.isNull || d.isNull then some ("C36-F9", nullV) else none
      | _, _, _ => none)
-  | "codepoint", [.str s] => some ("C36-F10", match s with | [] => nullV | ch :: _ => intV ch.toNat)
   | "hamming_distance", [.str a, .str b] => some ("C36-F11", hammingE a b)
-  | "case_simple", _ => some ("C36-F12", .err)
-  | "from_big_endian_32", [.bytes b] => some ("C36-F13", if b.length ≥ 4 then intV (signed 4 (beNat (b.take 4))) else nullV)
-  | "from_big_endian_64", [.bytes b] => some ("C36-F13", if b.length ≥ 8 then intV (signed 8 (beNat (b.take 8))) else nullV)
   | "day_of_week", [.date z] => some ("C36-F14", intV ((z + 4) % 7 + 1))
   | "date_diff", [.str u, .date a, .date b] =>
     some ("C36-F15", match unitE u with
@@ -213,8 +183,6 @@ def devCall (c : Ctx) (f : String) (args : List V) : Option (String × EOut) :=
      | _, _ => none)
   | "translate", [.str s, .str a, .str b] =>
     some ("C36-F19", strV (s.map (fun ch => match indexOfC ch a 0 with | some i => b.getD i ch | none => ch)))
-  | "url_encode", [.str s] => some ("C36-F20", strV (urlEncE s))
-  | "url_decode", [.str s] => some ("C36-F20", strV (IQE.Utf8.decodeLossy (pctDecode (IQE.Utf8.encode s) 0)))
   | "date_add", [u, n, d] =>
     (match u, intSlot n, d with
      | .str uv, some v, .date z =>
@@ -226,11 +194,9 @@ def devCall (c : Ctx) (f : String) (args : List V) : Option (String × EOut) :=
          | _ => nullV)
      | _, some _, _ => if u.isNull || d.isNull then some ("C36-F21", nullV) else none
      | _, _, _ => none)
-  | "date_trunc", [.str u, .date z] => some ("C36-F21", match unitE u with | some uu => .val (.date (dateTrunc uu z)) | none => nullV)
   -- F24: greatest / least keep going past a NULL (`zip` reads a NULL comparison as false)
   | "greatest", v :: vs => some ("C36-F24", .val (vs.foldl (fun acc b => match acc, b with | .int x, .int y => if x > y then acc else b | _, _ => b) v))
   | "least", v :: vs => some ("C36-F24", .val (vs.foldl (fun acc b => match acc, b with | .int x, .int y => if x < y then acc else b | _, _ => b) v))
-  | "luhn_check", [.str s] => some ("C36-F22", .val (.bool (luhnE s)))
   | "chr", [.int n] => some ("C36-F23", let u : Int := asU32 n; if validCodePoint u then strV [Char.ofNat u.toNat] else nullV)
   | _, _ => none
 
